@@ -10,7 +10,8 @@
 (*           where "yz" stands for "y z")                                   *)
 (*   op      "", ":-", "-", ":=", "=", ":?", "?", ":+", "+", "len",         *)
 (*           "%", "%%", "#", "##"                                           *)
-(*   w       word: "w", "uv" ("u v"), "side" (${y:=s}: a side effect that   *)
+(*   w       word: "w", "uv" ("u v"), "at" ("$@"), "side" (${y:=s}: a side   *)
+(*           effect that                                                    *)
 (*           shows whether the word was expanded), "pat" (a pattern)        *)
 (*   q       quoting: "none", "dq" (the whole expansion in double quotes),  *)
 (*           "wq" (the word single-quoted)                                  *)
@@ -30,6 +31,7 @@ Val(s) == CASE s = "x"  -> <<"x">>
             [] s = "w"  -> <<"w">>
             [] s = "uv" -> <<"u", "SP", "v">>
             [] s = "s"  -> <<"s">>
+            [] s = "mb" -> <<"n", "U1">>              \* two characters, three bytes
             [] OTHER    -> <<>>
 
 IFSSet(i) == CASE i = "comma" -> {","} [] i = "empty" -> {} [] OTHER -> S!DefaultIFS
@@ -76,7 +78,9 @@ ValuePre(st, c) ==
 Ok(pfs, c, side, vafter) == [err |-> "none", fields |-> FieldsOf(pfs, c), yset |-> side, vafter |-> vafter]
 Fail(c) == [err |-> "param", fields |-> <<>>, yset |-> FALSE, vafter |-> c.vst]
 
-WordPre(c) == LET w == WordOf(c) IN << PosQ(w.val, WordQuoted(c)) >>
+(* the word "$@" (c.w = "at") stands for one quoted pre-field per positional parameter, none without parameters *)
+WordPre(c) == IF c.w = "at" THEN [i \in 1..Len(c.args) |-> PosQ(Val(c.args[i]), TRUE)]
+              ELSE LET w == WordOf(c) IN << PosQ(w.val, WordQuoted(c)) >>
 
 (* pattern of the % # operators: "x*" for prefixes, "*y" ... kept simple: ? *)
 PatItems == <<P!AnyC>>        \* the pattern ?
